@@ -1,33 +1,295 @@
-import RoaringModel.BitmapStore
+import RoaringModel.Lemmas.UnsafeLemmas
 /-!
 # C15 — no safe call sequence causes an invalid memory access (bounds logic of the unsafe sites)
 
 A Lean theorem cannot exhibit undefined behaviour; what is proved here is the index arithmetic each `unsafe` block
-relies on, for **arbitrary** (also ill-formed) states.  The tie to the Rust sites are the `cfg(roaring_verif)` bounds
-recorders (see DESIGN.md §8 C15).
+relies on, for **arbitrary** (also ill-formed) states: unsorted arrays, arrays with duplicates, unsorted or repeated
+chunk keys, any word list, any cursor position.  No theorem below has a well-formedness hypothesis.
+
+* `Unsafe.lean` / `UnsafeIter.lean` model the loops around the 16 unchecked accesses with explicit indices and record
+  every unchecked access as an `Access` (`site`, `index`, `len`) — the arguments of the crate's
+  `#[cfg(roaring_verif)] verif_hooks::site(id, index, len)` recorders, which are the tie to the Rust sites
+  (DESIGN.md §8 C15).  `Safe t` = every access of the trace `t` has `index < len`.
+* sites: 0 `rank`; 1–8 `scalar::{or,and,sub,xor}`; 9 `retain`; 10, 11 `from_lsb0_bytes_unchecked`;
+  12 `advance_to`; 13 `advance_back_to`; 14 `next`; 15 `next_back`.
+
+Each theorem with hypotheses is followed by an `example` that instantiates it on an ill-formed input.
 -/
 namespace Roaring.C15
-open Roaring
+open Roaring Roaring.Unsafe
 
-/-- `BitmapIter::advance_to`: the word index read with `get_unchecked(new_key)` is `index / 64 ≤ 1023`
+/-! ## sites 1–8: the two-pointer merges of `scalar.rs` -/
+
+/-- Sites 1, 2 (`scalar::or`): from *every* loop state `(fuel, i, j)` over *any* two slices, each recorded access is
+    `lhs.get_unchecked(i)` with `i < lhs.len()` or `rhs.get_unchecked(j)` with `j < rhs.len()`. -/
+theorem C15_or_sites (lhs rhs : Array Nat) (fuel i j : Nat) :
+    ∀ a ∈ (orLoop lhs rhs fuel i j).2,
+      (a.site = 1 ∧ a.len = lhs.size ∨ a.site = 2 ∧ a.len = rhs.size) ∧ a.index < a.len :=
+  orLoop_only lhs rhs fuel i j
+
+/-- Sites 3, 4 (`scalar::and`): as `C15_or_sites`. -/
+theorem C15_and_sites (lhs rhs : Array Nat) (fuel i j : Nat) :
+    ∀ a ∈ (andLoop lhs rhs fuel i j).2,
+      (a.site = 3 ∧ a.len = lhs.size ∨ a.site = 4 ∧ a.len = rhs.size) ∧ a.index < a.len :=
+  andLoop_only lhs rhs fuel i j
+
+/-- Sites 5, 6 (`scalar::sub`): as `C15_or_sites`. -/
+theorem C15_sub_sites (lhs rhs : Array Nat) (fuel i j : Nat) :
+    ∀ a ∈ (subLoop lhs rhs fuel i j).2,
+      (a.site = 5 ∧ a.len = lhs.size ∨ a.site = 6 ∧ a.len = rhs.size) ∧ a.index < a.len :=
+  subLoop_only lhs rhs fuel i j
+
+/-- Sites 7, 8 (`scalar::xor`): as `C15_or_sites`. -/
+theorem C15_xor_sites (lhs rhs : Array Nat) (fuel i j : Nat) :
+    ∀ a ∈ (xorLoop lhs rhs fuel i j).2,
+      (a.site = 7 ∧ a.len = lhs.size ∨ a.site = 8 ∧ a.len = rhs.size) ∧ a.index < a.len :=
+  xorLoop_only lhs rhs fuel i j
+
+/-- Sites 1–8: the traces of the four merges, called on arbitrary slices, are in bounds. -/
+theorem C15_merge_safe (lhs rhs : Array Nat) :
+    Safe (Unsafe.or lhs rhs).2 ∧ Safe (Unsafe.and lhs rhs).2 ∧ Safe (Unsafe.sub lhs rhs).2 ∧ Safe (Unsafe.xor lhs rhs).2 :=
+  ⟨(orLoop_only lhs rhs _ 0 0).safe, (andLoop_only lhs rhs _ 0 0).safe,
+   (subLoop_only lhs rhs _ 0 0).safe, (xorLoop_only lhs rhs _ 0 0).safe⟩
+
+/-- Sites 1–8, tie of the two models: on arbitrary (unsorted, duplicated) inputs the index-level loops hand the visitor
+    exactly the list the list-level model `Arr.or/and/sub/xor` (the one the correspondence check runs against the crate)
+    computes; in particular `fuel = lhs.len() + rhs.len()` never runs out. -/
+theorem C15_merge_eq_model (lhs rhs : Array Nat) :
+    (Unsafe.or lhs rhs).1 = Arr.or lhs.toList rhs.toList ∧ (Unsafe.and lhs rhs).1 = Arr.and lhs.toList rhs.toList ∧
+    (Unsafe.sub lhs rhs).1 = Arr.sub lhs.toList rhs.toList ∧ (Unsafe.xor lhs rhs).1 = Arr.xor lhs.toList rhs.toList := by
+  unfold Unsafe.or Unsafe.and Unsafe.sub Unsafe.xor
+  refine ⟨?_, ?_, ?_, ?_⟩
+  · simpa using orLoop_eq lhs rhs (lhs.size + rhs.size) 0 0 (by omega)
+  · simpa using andLoop_eq lhs rhs (lhs.size + rhs.size) 0 0 (by omega)
+  · simpa using subLoop_eq lhs rhs (lhs.size + rhs.size) 0 0 (by omega)
+  · simpa using xorLoop_eq lhs rhs (lhs.size + rhs.size) 0 0 (by omega)
+
+/-- ill-formed operands (unsorted, with duplicates): all recorded accesses (14 for the first pair) are in bounds -/
+example : (Unsafe.or #[5, 1, 1, 9] #[1, 7, 7, 2]).2.length = 14 ∧ Safe (Unsafe.or #[5, 1, 1, 9] #[1, 7, 7, 2]).2 := by decide
+example : (Unsafe.xor #[9, 9, 0] #[3, 3, 3, 3, 1]).1 = [3, 3, 3, 3, 1, 9, 9, 0] ∧ Safe (Unsafe.xor #[9, 9, 0] #[3, 3, 3, 3, 1]).2 := by
+  decide
+example : Safe (Unsafe.sub #[65535, 0, 65535] #[0, 0]).2 := (C15_merge_safe _ _).2.2.1
+
+/-! ## site 9: `ArrayStore::retain` -/
+
+/-- Site 9 (`retain`): for any vector and any (stateful, `FnMut`) predicate, every `slice.get_unchecked_mut(pos)` has
+    `pos < slice.len()`; moreover the final `pos ≤ len` (`truncate(pos)` only shrinks) and the length never changes. -/
+theorem C15_retain {σ : Type} (f : σ → Nat → σ × Bool) (s : σ) (vec : Array Nat) :
+    (∀ a ∈ (retain f s vec).2.2, a.site = 9 ∧ a.len = vec.size ∧ a.index < a.len)
+    ∧ (retainLoop f vec.size s vec 0 0).pos ≤ vec.size
+    ∧ (retainLoop f vec.size s vec 0 0).slice.size = vec.size :=
+  retainLoop_spec f vec.size s vec 0 0 (Nat.le_refl _) (by omega)
+
+/-- Site 9, from every loop state with `pos ≤ i` (the SAFETY comment of the crate) and `k = len - i` iterations left. -/
+theorem C15_retain_loop {σ : Type} (f : σ → Nat → σ × Bool) (k : Nat) (s : σ) (slice : Array Nat) (pos i : Nat)
+    (hpos : pos ≤ i) (hk : i + k = slice.size) :
+    ∀ a ∈ (retainLoop f k s slice pos i).trace, a.site = 9 ∧ a.len = slice.size ∧ a.index < a.len :=
+  (retainLoop_spec f k s slice pos i hpos hk).1
+
+/-- Site 9, tie of the two models: on any vector the index-level `retain` leaves exactly the elements (and the closure
+    state) the list-level `retainList` keeps; with the galloping closures of the in-place `&=` / `-=`
+    (array_store/mod.rs:388, 427) that is the list-level model `Arr.andAssign` / `Arr.subAssign`. -/
+theorem C15_retain_eq_model {σ : Type} (f : σ → Nat → σ × Bool) (s : σ) (vec rhs : Array Nat) :
+    (retain f s vec).1.toList = (retainList f s vec.toList).1 ∧ (retain f s vec).2.1 = (retainList f s vec.toList).2
+    ∧ (retain andClosure rhs.toList vec).1.toList = Arr.andAssign vec.toList rhs.toList
+    ∧ (retain subClosure rhs.toList vec).1.toList = Arr.subAssign vec.toList rhs.toList :=
+  ⟨(retain_eq f s vec).1, (retain_eq f s vec).2,
+   by rw [(retain_eq _ _ _).1, retainList_and], by rw [(retain_eq _ _ _).1, retainList_sub]⟩
+
+/-- a stateful closure on an unsorted vector with duplicates; and a mid-loop state with `pos ≤ i` -/
+example : (retain (fun (n : Nat) v => (n + 1, n % 2 == 0 || v == 7)) 0 #[7, 3, 3, 7, 0, 7]).1 = #[7, 3, 7, 0, 7] := by decide
+example : Safe (retainLoop (fun (_ : Unit) v => ((), v != 3)) 3 () #[7, 3, 3, 7, 0] 1 2).trace :=
+  fun a ha => (C15_retain_loop _ 3 () #[7, 3, 3, 7, 0] 1 2 (by decide) (by decide) a ha).2.2
+
+/-! ## site 0: `RoaringBitmap::rank` -/
+
+/-- Site 0 (`rank`): whatever index a contract-respecting `binary_search_by_key` returns on a directory with *arbitrary*
+    keys (unsorted, repeated), `self.containers.get_unchecked(i)` in the `Ok(i)` arm is in bounds, and the checked
+    `self.containers[..i]` of both arms does not panic. -/
+theorem C15_rank (keys : Array Nat) (key : Nat) (r : Search) (h : r.Contract keys key) :
+    Safe (rankAccesses keys r) ∧ rankSliceOk keys r :=
+  rank_spec keys key r h
+
+/-- unsorted keys with a repeated key: both `Ok(1)` and `Ok(3)` respect the contract for key 2 -/
+example : Safe (rankAccesses #[9, 2, 0, 2] (.ok 3)) := (C15_rank #[9, 2, 0, 2] 2 (.ok 3) (by decide)).1
+example : Safe (rankAccesses #[9, 2, 0, 2] (.ok 1)) := (C15_rank #[9, 2, 0, 2] 2 (.ok 1) (by decide)).1
+
+/-- Site 0, with std's actual algorithm (`binary_search_by` of the installed toolchain's `core/src/slice/mod.rs`) in place of the oracle: on arbitrary keys it
+    respects the contract (so `C15_rank` applies to it), and its own two `get_unchecked` are in bounds as well. -/
+theorem C15_rank_std (keys : Array Nat) (key : Nat) :
+    (stdBinarySearch keys key).1.Contract keys key ∧ Safe (stdBinarySearch keys key).2
+    ∧ Safe (rankAccesses keys (stdBinarySearch keys key).1) :=
+  ⟨(stdBinarySearch_spec keys key).1, (stdBinarySearch_spec keys key).2,
+   (rank_spec keys key _ (stdBinarySearch_spec keys key).1).1⟩
+
+/-- on unsorted keys std misses a present key (3 is at index 4) — allowed by the contract, and harmless -/
+example : (stdBinarySearch #[5, 1, 1, 9, 3, 3, 0] 3).1 = .err 3 := by decide
+
+/-! ## sites 10, 11: `BitmapStore::from_lsb0_bytes_unchecked` -/
+
+/-- Sites 10, 11 (`from_lsb0_bytes_unchecked`): for every `bytes.len()` and `byte_offset`, either the leading `assert!`
+    panics (exactly when `byte_offset + bytes.len() > 8192`), or: `read_unaligned` of 8192 bytes happens only on a slice
+    of exactly 8192 bytes (then `byte_offset = 0`), the byte view `from_raw_parts_mut(_, 8192)` covers exactly the
+    `1024 * 8`-byte box, and the checked `dst[byte_offset..][..bytes.len()]` does not panic. -/
+theorem C15_from_lsb0 (bytesLen byteOffset : Nat) :
+    (fromLsb0Accesses bytesLen byteOffset = none ↔ ¬ byteOffset + bytesLen ≤ 8192) ∧
+    ∀ t, fromLsb0Accesses bytesLen byteOffset = some t →
+      Safe t ∧ fromLsb0SliceOk bytesLen byteOffset ∧ (bytesLen = 8192 → byteOffset = 0) :=
+  fromLsb0_spec bytesLen byteOffset
+
+example : fromLsb0Accesses 8192 0 = some [⟨10, 8191, 8192⟩] ∧ fromLsb0Accesses 8191 1 = some [⟨11, 8191, 8192⟩]
+    ∧ fromLsb0Accesses 8192 1 = none ∧ fromLsb0Accesses 0 8193 = none := by decide
+
+/-! ## sites 12–15: `BitmapIter`
+
+The instrumented `nextT / nextBackT / advanceToT / advanceBackToT` compute what `BIter.next / …` compute
+(`C15_biter_erasure`), so their traces are the word reads of the existing model.  The invariant is
+`BIter.Inv it := it.keyBack ≤ 1023` and nothing else: `key`, both cached words and the word list are arbitrary. -/
+
+/-- Sites 12–15: the instrumented cursor functions are the model's cursor functions plus a trace (every state). -/
+theorem C15_biter_erasure (it : BIter) (index : Nat) :
+    (it.nextT).1 = it.next ∧ (it.nextBackT).1 = it.nextBack ∧
+    (it.advanceToT index).1 = it.advanceTo index ∧ (it.advanceBackToT index).1 = it.advanceBackTo index :=
+  ⟨BIter.nextT_fst it, BIter.nextBackT_fst it, BIter.advanceToT_fst it index, BIter.advanceBackToT_fst it index⟩
+
+/-- Sites 12–15: on a word list of the Rust type's length (`[u64; 1024]`) an in-bounds index reads a real element — the
+    default of the model's `word` (`getD … 0`) is never what a recorded access returns. -/
+theorem C15_word_no_default (bits : List Nat) (h : bits.length = 1024) (k : Nat) (hk : k < 1024) :
+    bits[k]? = some (BStore.word bits k) := by
+  unfold BStore.word
+  rw [List.getD_eq_getElem?_getD, List.getElem?_eq_getElem (by omega)]; rfl
+
+example : (List.replicate 1024 7)[1023]? = some (BStore.word (List.replicate 1024 7) 1023) :=
+  C15_word_no_default _ List.length_replicate 1023 (by decide)
+
+/-- `BitmapIter::new`: `key_back = BITMAP_LENGTH - 1`. -/
+theorem C15_inv_new (bits : List Nat) : (BIter.new bits).Inv := Nat.le_refl _
+
+/-- `next` never writes `key_back`: the invariant is preserved from every state. -/
+theorem C15_inv_next (it : BIter) (h : it.Inv) : it.next.1.Inv := by
+  unfold BIter.Inv at *; rw [BIter.next_keyBack]; exact h
+
+/-- `next_back` only decrements `key_back`, and only while `key_back > key ≥ 0` (so the `u16` never underflows: the
+    instrumented version decrements with wrapping `dec16` and is still equal to the model, `C15_biter_erasure`). -/
+theorem C15_inv_nextBack (it : BIter) (h : it.Inv) : it.nextBack.1.Inv := by
+  unfold BIter.Inv at *; have := (BIter.nextBack_keys it).1; omega
+
+/-- `advance_to` never writes `key_back`. -/
+theorem C15_inv_advanceTo (it : BIter) (index : Nat) (h : it.Inv) : (it.advanceTo index).Inv := by
+  unfold BIter.Inv at *; rw [BIter.advanceTo_keyBack]; exact h
+
+/-- `advance_back_to(index)` leaves `key_back` or sets it to `index / 64 ≤ 1023`, for every `u16` index. -/
+theorem C15_inv_advanceBackTo (it : BIter) (index : Nat) (hi : index < 65536) (h : it.Inv) :
+    (it.advanceBackTo index).Inv := by
+  unfold BIter.Inv at *
+  have := (BIter.advanceBackTo_keys it index).1
+  have := BIter.wkey_le index hi
+  omega
+
+/-- an ill-formed cursor (key beyond key_back, key > 1023, garbage words, 3-word list) still keeps the invariant -/
+example : (BIter.advanceBackTo { key := 5000, value := 7, keyBack := 17, valueBack := 0, bits := [1, 2, 3] } 65535).Inv :=
+  C15_inv_advanceBackTo _ 65535 (by decide) (by decide)
+
+/-- Site 14 (`next`): every word index read lies strictly between `key` and `key_back` (every state); under the
+    invariant all of them are `< 1024`. -/
+theorem C15_next_reads (it : BIter) :
+    (∀ a ∈ (it.nextT).2, a.site = 14 ∧ a.len = 1024 ∧ it.key < a.index ∧ a.index < it.keyBack)
+    ∧ (it.Inv → Safe (it.nextT).2) :=
+  ⟨BIter.nextT_reads it, fun h => (BIter.nextT_reads it).safe (by unfold BIter.Inv at h; intro k hk; omega)⟩
+
+/-- Site 15 (`next_back`): every word index read is a decremented `key_back` with `key ≤ index < key_back` (every
+    state; the decrement is the wrapping `dec16`, so this also says it was never applied to 0); under the invariant all
+    of them are `< 1024`. -/
+theorem C15_nextBack_reads (it : BIter) :
+    (∀ a ∈ (it.nextBackT).2, a.site = 15 ∧ a.len = 1024 ∧ it.key ≤ a.index ∧ a.index < it.keyBack)
+    ∧ (it.Inv → Safe (it.nextBackT).2) :=
+  ⟨BIter.nextBackT_reads it, fun h => (BIter.nextBackT_reads it).safe (by unfold BIter.Inv at h; intro k hk; omega)⟩
+
+/-- Site 12 (`advance_to`): the only word read is `new_key = index / 64`, in the branch `key < new_key < key_back`
+    (every state); it is `< 1024` under the invariant — and also for every `u16` index without it. -/
+theorem C15_advanceTo_reads (it : BIter) (index : Nat) :
+    (∀ a ∈ (it.advanceToT index).2, a.site = 12 ∧ a.len = 1024 ∧ a.index = wkey index ∧ it.key < a.index ∧ a.index < it.keyBack)
+    ∧ (it.Inv → Safe (it.advanceToT index).2) ∧ (index < 65536 → Safe (it.advanceToT index).2) :=
+  ⟨BIter.advanceToT_reads it index,
+   fun h => (BIter.advanceToT_reads it index).safe (by unfold BIter.Inv at h; intro k hk; omega),
+   fun h => (BIter.advanceToT_reads it index).safe (by have := BIter.wkey_le index h; intro k hk; omega)⟩
+
+/-- Site 13 (`advance_back_to`): the only word read is `new_key = index / 64`, in the branch `key < new_key < key_back`
+    (every state); it is `< 1024` under the invariant — and also for every `u16` index without it. -/
+theorem C15_advanceBackTo_reads (it : BIter) (index : Nat) :
+    (∀ a ∈ (it.advanceBackToT index).2, a.site = 13 ∧ a.len = 1024 ∧ a.index = wkey index ∧ it.key < a.index ∧ a.index < it.keyBack)
+    ∧ (it.Inv → Safe (it.advanceBackToT index).2) ∧ (index < 65536 → Safe (it.advanceBackToT index).2) :=
+  ⟨BIter.advanceBackToT_reads it index,
+   fun h => (BIter.advanceBackToT_reads it index).safe (by unfold BIter.Inv at h; intro k hk; omega),
+   fun h => (BIter.advanceBackToT_reads it index).safe (by have := BIter.wkey_le index h; intro k hk; omega)⟩
+
+/-- a cursor over a 2-word list (reads beyond it hit the `getD` default — still `< 1024`) with `value = 0`: `next` scans
+    words 4..8; an ill-formed cursor (`key > 1023`, `key > key_back`): `next_back` reads nothing, in bounds -/
+example : (BIter.nextT { key := 3, value := 0, keyBack := 9, valueBack := 0, bits := [0, 0] }).2.map (·.index) = [4, 5, 6, 7, 8] := by
+  decide
+example : Safe (BIter.nextBackT { key := 2000, value := 0, keyBack := 1023, valueBack := 0, bits := [] }).2 :=
+  (C15_nextBack_reads _).2 (by decide)
+
+/-- Sites 12–15, closed under every safe call sequence: in every state reachable from `BitmapIter::new(bits)` — for any
+    word list — by `next`, `next_back`, `advance_to(i)`, `advance_back_to(i)` with arbitrary `u16` arguments, all word
+    reads of all four functions are in bounds (and `key`, `key_back` are `≤ 1023`). -/
+theorem C15_biter_reachable (bits : List Nat) (it : BIter) (h : BIter.Reach bits it) :
+    it.Inv ∧ it.KeyOk ∧ Safe (it.nextT).2 ∧ Safe (it.nextBackT).2 ∧
+    ∀ index, index < 65536 → Safe (it.advanceToT index).2 ∧ Safe (it.advanceBackToT index).2 := by
+  have hi := (BIter.reach_inv h).1
+  exact ⟨hi, (BIter.reach_inv h).2, (C15_next_reads it).2 hi, (C15_nextBack_reads it).2 hi,
+    fun index _ => ⟨(C15_advanceTo_reads it index).2.1 hi, (C15_advanceBackTo_reads it index).2.1 hi⟩⟩
+
+example : Safe ((((BIter.new [0, 5, 0]).advanceBackTo 4000).nextBack.1.advanceTo 70).nextT).2 :=
+  (C15_biter_reachable [0, 5, 0] _ (.advanceTo 70 (by decide) (.nextBack (.advanceBackTo 4000 (by decide) .new)))).2.2.1
+
+/-- `u16` arithmetic of the yielded values (not a memory access; a release build would wrap, a debug build panic):
+    `key ≤ 1023` is preserved from every state satisfying the invariant, hence `64 * key + index` with `index ≤ 63`
+    fits a `u16`; `next` sets `key` to a scanned index in `(key, key_back)` or to `key_back`, `advance_to` to
+    `index / 64` or to `key_back`, the other two leave it. -/
+theorem C15_keyOk (it : BIter) (h : it.Inv) (hk : it.KeyOk) :
+    it.next.1.KeyOk ∧ it.nextBack.1.KeyOk ∧
+    (∀ index, index < 65536 → (it.advanceTo index).KeyOk ∧ (it.advanceBackTo index).KeyOk) ∧
+    64 * it.key + 63 < 65536 ∧ 64 * it.keyBack + 63 < 65536 := by
+  unfold BIter.Inv at h; unfold BIter.KeyOk at *
+  refine ⟨?_, ?_, ?_, by omega, by omega⟩
+  · have := BIter.next_key it; omega
+  · rw [(BIter.nextBack_keys it).2]; exact hk
+  · intro index hi
+    have h1 := BIter.advanceTo_key it index
+    have h2 := (BIter.advanceBackTo_keys it index).2
+    have h3 := BIter.wkey_le index hi
+    omega
+
+/-- Every value yielded by `next` / `next_back` in a reachable state over `u64` words is a `u16`: no overflow in
+    `64 * self.key + index` / `64 * self.key_back + index`. -/
+theorem C15_yield_u16 (bits : List Nat) (hb : ∀ w ∈ bits, w < 2^64) (it : BIter) (h : BIter.Reach bits it) :
+    (∀ v, it.next.2 = some v → v < 65536) ∧ (∀ v, it.nextBack.2 = some v → v < 65536) :=
+  ⟨BIter.next_value_lt it (BIter.reach_inv h).1 (BIter.reach_inv h).2 (BIter.reach_u64 hb h),
+   BIter.nextBack_value_lt it (BIter.reach_inv h).1 (BIter.reach_u64 hb h)⟩
+
+example : ∀ v, ((BIter.new [0, 5]).advanceTo 64).next.2 = some v → v < 65536 :=
+  (C15_yield_u16 [0, 5] (by decide) _ (.advanceTo 64 (by decide) .new)).1
+
+/-! ## the first three theorems of this file (kept: they are the raw arithmetic facts behind the ones above) -/
+
+/-- Site 12 (`advance_to`): the word index read with `get_unchecked(new_key)` is `index / 64 ≤ 1023`
     for every `u16` target, whatever the iterator state. -/
 theorem C15_advanceTo_index (index : Nat) (h : index < 65536) : wkey index < 1024 := by
   unfold wkey; omega
 
-/-- `BitmapIter::next`: every word index read in the scan lies strictly between `key` and `key_back`,
+/-- Site 14 (`next`): every word index read in the scan lies strictly between `key` and `key_back`,
     hence below 1024 whenever `key_back ≤ 1023` (which `new`, `advance_back_to` and `next_back` maintain). -/
 theorem C15_next_scan_index (key keyBack k : Nat) (hkb : keyBack ≤ 1023)
     (hk : k ∈ List.range' (key + 1) (keyBack - key - 1)) : k < 1024 := by
   rw [List.mem_range'_1] at hk; omega
 
-/-- `advance_back_to` never increases `key_back`, `next_back` only decrements it while it is `> key ≥ 0`:
-    `key_back ≤ 1023` is an invariant of every `BIter` reachable from `BIter.new`. -/
+/-- Site 13 (`advance_back_to`) never increases `key_back` beyond `max(key_back, 1023)`:
+    `key_back ≤ 1023` is preserved. -/
 theorem C15_keyBack_advanceBackTo (it : BIter) (index : Nat) (hi : index < 65536) (h : it.keyBack ≤ 1023) :
-    (it.advanceBackTo index).keyBack ≤ 1023 := by
-  unfold BIter.advanceBackTo
-  have : wkey index ≤ 1023 := by unfold wkey; omega
-  simp only []
-  repeat' split
-  all_goals (first | exact h | exact this)
+    (it.advanceBackTo index).keyBack ≤ 1023 :=
+  C15_inv_advanceBackTo it index hi h
+
+example : k ∈ List.range' (5 + 1) (9 - 5 - 1) → k < 1024 := C15_next_scan_index 5 9 k (by decide)
 
 end Roaring.C15
